@@ -17,7 +17,7 @@ import WcModel.Proofs.GlobSpec
     D8  `**/` accepts a regular file,
     G3  a second `**` group is link-tested against the wrong base (`_wcmatch.py:106-107`),
     G2  (glob side) IGNORECASE folds two entries into one seen-set key,
-    D14 / D17 (glob side, see C05).
+    D17 (glob side, see C05; D14 and D16, which also showed here, are repaired).
   Both sides are related to one specification (`Spec/Denotes`) by checks, not by proof: the
   capture decomposition `Re.runCap` is executable and validated, not proved (§8 of the design);
   theorems below use it only through `fsMatch`'s definition, never assuming a particular split.
